@@ -176,8 +176,9 @@ def work(tasks, idx):
             if len(res.samples) < 2:
                 res.samples.append({"ceremony": "authentication", "alg": c.alg, "field": field, "bits": [lo, hi]})
             continue
-        _, fmt, choice, field, lo, hi = t
-        b = _reg.build(fmt, choice, ())
+        _, fmt, choice, field, lo, hi = t[:6]
+        pad = t[6] if len(t) > 6 else 0         # SafetyNet: payload JSON of another length mod 3 (its base64 then ends in spare bits)
+        b = _reg.build(fmt, choice, (), **({"snet_payload_pad": pad} if pad else {}))
         if b is None:
             continue
         req, r = b
@@ -274,6 +275,20 @@ def run(ctx, res):
                 step = CHUNK * (4 if field in ("response",) else 1)
                 for lo in range(0, nbits, step):
                     tasks.append(("reg", fmt, ch, field, lo, lo + step))
+    # the SafetyNet JWS in every tier, with payloads of each length mod 3: the signed text is the base64url text itself, spare
+    # bits of a segment's last character included
+    if "android-safetynet" not in fmts or ctx.quick():
+        ch = _reg.cred_choices("android-safetynet")[0]
+        for pad in (0, 1, 2):
+            if pad == 0 and "android-safetynet" in fmts:
+                continue
+            for lo in range(0, 2400 * 8, CHUNK * 4):
+                tasks.append(("reg", "android-safetynet", ch, "response", lo, lo + CHUNK * 4, pad))
+    elif "android-safetynet" in fmts:
+        ch = _reg.cred_choices("android-safetynet")[0]
+        for pad in (1, 2):
+            for lo in range(0, 2400 * 8, CHUNK * 4):
+                tasks.append(("reg", "android-safetynet", ch, "response", lo, lo + CHUNK * 4, pad))
     work.driver_ok = ctx.driver_ok
     corr.merge(res, corr.parallel(work, tasks))
     res.exhaustive = True
